@@ -425,6 +425,7 @@ def _reexec_optimized(argv, extra_env=None):
     import subprocess
 
     env = dict(os.environ, **(extra_env or {}))
+    env["PYTHONHASHSEED"] = os.environ.get("VERIF_OPT_HASHSEED", "271828")  # the -O pass also runs under another hash seed
     boot = 'import sys; sys.path.insert(0, "."); from dsim import driver; sys.exit(driver.main(sys.argv[1:]))'
     p = subprocess.run([sys.executable, "-O", "-c", boot] + argv, cwd=VERIF_DIR, env=env, capture_output=True, text=True)
     return p.returncode, p.stdout
